@@ -447,6 +447,10 @@ func (ex *Exec) callStaticBind(fr *Frame, st *State, fn *ssa.Function, args []Va
 // havocCall is rule 4: results are fresh, reachable heap is havocked.
 func (ex *Exec) havocCall(fr *Frame, st *State, key string, args []Val, sig *types.Signature, pos token.Pos) []Outcome {
 	ex.havocked[shortKey(key)] = true
+	if ex.contextOnly[key] {
+		// a helper left to be checked in its callers' context must be executed there: undecided otherwise
+		ex.errs = append(ex.errs, fmt.Sprintf("helper %s is checked only in the context of its callers but could not be executed in %s (size, depth or recursion)", shortKey(key), shortKey(ex.curKey)))
+	}
 	st.Tracef("%s: call %s (no contract: results unconstrained)", ex.pos(pos), shortKey(key))
 	if !ex.knownPure(key) {
 		ex.markEscaped(st, args)
@@ -581,6 +585,44 @@ func (ex *Exec) applyContractNamed(fr *Frame, st *State, c *Contract, names []st
 		}
 	}
 	for _, a := range args {
+		if fv, ok := a.(*FuncV); ok && fv.Fn != nil && isBoundMethodWrapper(fv.Fn) && len(fv.Bind) == 1 && fr.depth < ex.maxDepth && c.Flags["repeats"] {
+			// a method value (l.attempt) handed to a callee that runs it synchronously, possibly several times (retry.Do):
+			// like a closure that captured the receiver only. (Method values handed to other callees - schedulers,
+			// monitors - run later or on another goroutine and are not executed here.)
+			if obj, ok := fv.Fn.Object().(*types.Func); ok {
+				if m := ex.boundTarget(obj, fv.Bind[0]); m != nil && isRepoFunc(m) {
+					st2 := st.Clone()
+					ex.havocHeapOnly(st2)
+					var cargs []Val
+					for _, p := range fv.Fn.Params {
+						cargs = append(cargs, ex.freshVal(st2, p.Type(), "cb_"+p.Name()))
+					}
+					st2.Tracef("%s: method value %s may be invoked by %s", ex.pos(pos), m.Name(), shortKey(key))
+					outs := ex.callStaticBind(fr, st2, fv.Fn, cargs, fv.Bind, pos, fv.Fn.Signature)
+					if c.Flags["repeats"] {
+						for _, o := range outs {
+							if o.Panic || len(outs) > 16 {
+								continue
+							}
+							if len(o.Ret) == 1 {
+								if iv, ok := o.Ret[0].(*IfaceV); ok {
+									if iv.Nil {
+										continue
+									}
+									if iv.Dyn == nil && iv.Sym != nil && iv.Sym.Sort == SErr {
+										o.St.Assume(Not(Eq(iv.Sym, errNil)))
+									}
+								}
+							}
+							o.St.Tracef("%s: %s retries the method value (second attempt)", ex.pos(pos), shortKey(key))
+							ex.secondAttempt = true
+							ex.callStaticBind(fr, o.St, fv.Fn, cargs, fv.Bind, pos, fv.Fn.Signature)
+							ex.secondAttempt = false
+						}
+					}
+				}
+			}
+		}
 		if fv, ok := a.(*FuncV); ok && fv.Fn != nil && fv.Fn.Parent() != nil && isRepoFunc(fv.Fn) && fr.depth < ex.maxDepth {
 			// a callee used by contract may invoke the closure it is handed, at any time and with any
 			// arguments: run the body once on a copy of the state (heap unknown) so that the obligations
@@ -1131,10 +1173,16 @@ func paramNameOfValue(fn *ssa.Function, v ssa.Value) string {
 // like a helper without contract. (Extracting a few statements into a new helper must not turn them into an unknown.)
 func (ex *Exec) emptyContractOfSmallHelper(c *Contract, fn *ssa.Function) bool {
 	if !c.Synth || len(c.Flags) > 0 || fn == nil || len(fn.Blocks) == 0 || ex.topFrame == nil || !samePackage(fn, ex.topFrame.fn) {
+		if os.Getenv("GOVC_DEBUG") != "" && fn != nil && c.Synth {
+			fmt.Fprintf(os.Stderr, "not a small helper: %s flags=%v\n", c.Key, c.Flags)
+		}
 		return false
 	}
 	for _, cl := range c.Clauses {
 		if tagActive(cl.Tags, ex.prop) && cl.Kind != "exempt" && cl.Kind != "params" && cl.Kind != "local" {
+			if os.Getenv("GOVC_DEBUG") != "" {
+				fmt.Fprintf(os.Stderr, "not a small helper: %s has active clause %s %s\n", c.Key, cl.Kind, cl.Text)
+			}
 			return false
 		}
 	}
@@ -1152,9 +1200,19 @@ func (ex *Exec) emptyContractOfSmallHelper(c *Contract, fn *ssa.Function) bool {
 				}
 			}
 		}
-		for _, succ := range b.Succs {
-			if succ.Index <= b.Index {
-				small = false // a loop
+	}
+	if hasBackEdge(fn) {
+		small = false // a loop
+	}
+	// Beyond a few statements only helpers whose blocks are numbered forwards are executed in place (the right-hand side
+	// of || and && is numbered after the blocks it jumps to: a cheap, conservative stand-in for "straight-line shape"
+	// that keeps the number of paths of the large filesystem functions what their proofs were built with).
+	if n > 80 {
+		for _, b := range fn.Blocks {
+			for _, succ := range b.Succs {
+				if succ.Index <= b.Index {
+					small = false
+				}
 			}
 		}
 	}
@@ -1166,4 +1224,40 @@ func (ex *Exec) emptyContractOfSmallHelper(c *Contract, fn *ssa.Function) bool {
 	}
 	ex.smallHelper[fn] = small
 	return small
+}
+
+// hasBackEdge: the control-flow graph of fn has a cycle (an edge to a block that is on the depth-first stack). Block
+// numbers say nothing: the right-hand side of || and && is numbered after the blocks it jumps to.
+func hasBackEdge(fn *ssa.Function) bool {
+	state := make([]int, len(fn.Blocks)) // 0 unseen, 1 on the stack, 2 done
+	var visit func(b *ssa.BasicBlock) bool
+	visit = func(b *ssa.BasicBlock) bool {
+		state[b.Index] = 1
+		for _, s := range b.Succs {
+			if state[s.Index] == 1 {
+				return true
+			}
+			if state[s.Index] == 0 && visit(s) {
+				return true
+			}
+		}
+		state[b.Index] = 2
+		return false
+	}
+	return len(fn.Blocks) > 0 && visit(fn.Blocks[0])
+}
+
+func isBoundMethodWrapper(fn *ssa.Function) bool {
+	return fn != nil && strings.HasPrefix(fn.Synthetic, "bound method wrapper")
+}
+
+// boundTarget: the method a bound method wrapper calls, when it is statically known (concrete receiver).
+func (ex *Exec) boundTarget(obj *types.Func, recv Val) *ssa.Function {
+	if iv, ok := recv.(*IfaceV); ok {
+		if iv.Dyn != nil {
+			return ex.prog.LookupMethod(iv.Dyn, obj.Pkg(), obj.Name())
+		}
+		return nil
+	}
+	return ex.prog.FuncValue(obj)
 }
